@@ -917,8 +917,12 @@ def main(ck: Check):
         ck.regenerate(["effects"])      # Props/C02_Patches.lean: the build path lowered from the source
         proved = ck.prove("Simaple.Props.C02")
         if not quick and proved:
-            ck.leanchecker(["Simaple.Props.C02", "Simaple.Props.C02_Patches"])
+            ck.leanchecker(["Simaple.Props.C02", "Simaple.Props.C02_Patches", "Simaple.Props.C02_BuildPath"])
         res = ck.driver(reqs + [{"fn": "patch_table"}], timeout=600)
+    with ck.locked():
+        # Props/C02_BuildPath.lean: the rest of the build path (entries tagged 2 and 16 of the generated pureTable)
+        build_fn_rows = (ck.effect_entries(2, "Simaple.Props.C02.build_path_functions_wellFormed") or []) + \
+                        (ck.effect_entries(16, "Simaple.Props.C02.build_path_functions_wellFormed") or [])
     patch_table = None
     if res is not None:
         patch_table = res[-1].get("ok")
@@ -983,6 +987,7 @@ def main(ck: Check):
         "thread_rounds": [{"kind": r["kind"], "threads": r["threads"], "units": len(r["order"])} for r in th_jobs],
         "methods_reading_module_level_mutable_objects": [f"{c}.{m}" for c, m in shared_targets],
         "their_calls_replayed_with_a_shared_state_snapshot": shared_calls,
+        "build_path_functions_checked_by_the_effect_model": [r["name"] for r in build_fn_rows],
         "build_path_effect_programs": None if patch_table is None else
             [{"entry": e["name"], "obligation": e["api"], "accepted_by_the_effect_checker": e["wellFormed"],
               "recursive": e["recursive"], "statements": e["size"]} for e in patch_table["entries"]],
